@@ -19,6 +19,14 @@ static void on_signal(int sig)
     if (g_log) { fflush(g_log); if (write(fileno(g_log), b, n) < 0) {} }
     _exit(50);
 }
+static void on_alarm(int sig)
+{
+    char b[160]; int n;
+    (void)sig;
+    n = snprintf(b, sizeof b, "\nX %d %d CASE-TIME-LIMIT exceeded\n", g_case, g_line);
+    if (g_log) { fflush(g_log); if (write(fileno(g_log), b, n) < 0) {} }
+    _exit(51);
+}
 static void on_verdict(const char *msg)
 {
     if (g_log) { fprintf(g_log, "\nX %d %d VERDICT %s\n", g_case, g_line, msg); fflush(g_log); }
@@ -161,6 +169,9 @@ int main(int argc, char **argv)
             npre = arglist("prefix", pl, BD_MAXPREFIX); if (npre < 0) npre = 0; for (i = 0; i < npre; i++) prefix[i] = (int)pl[i];
             if ((v = arg("fault"))) sscanf(v, "%d:%d:%d", &fr, &fn, &fc);
             trace_on = (int)argi("trace", 0);
+            /* optional per-case CPU/wall limit (seconds) and address-space limit (MiB): malformed-input cases must fail promptly */
+            alarm(0);
+            if (arg("tlimit")) { struct sigaction sa2; memset(&sa2, 0, sizeof sa2); sa2.sa_handler = on_alarm; sigaction(SIGALRM, &sa2, NULL); alarm((unsigned)argi("tlimit", 0)); }
             flush_log();
             PMPI_Barrier(MPI_COMM_WORLD);
             if (g_rank == 0) {
@@ -178,6 +189,7 @@ int main(int argc, char **argv)
                 board_barrier(1000000 + lineno);
                 cleanup_case();
                 board_barrier(2000000 + lineno);
+                alarm(0);
                 OUT("E %d inj=%d fault_hit=%d where=%s ncoll=%ld nindep=%ld ms=%.1f rss_kb=%ld", g_case, shim_inj, shim_fault_hit, shim_fault_where[0] ? shim_fault_where : "-", shim_ncoll, shim_nindep, (now_s() - g_t0) * 1000.0, rss_kb() - g_rss0);
                 if (board_active() && g_rank == 0) {
                     board_t *B = board_ptr(); int i, j;
